@@ -513,7 +513,98 @@ def r14(ctx):
         raise AnalysisBroken('C06.R14: only %d output operations recognised in ValueListDataField::readSymbols' % n)
 
 
+def r15(ctx):
+    ctx.rule('C06.R15', 'a fixed-point value is printed with enough decimals to be read back: NumberDataType::calcPrecision(d), '
+             'evaluated from its typed AST for every divisor 2..4096, the powers of ten up to the maximum divisor with their '
+             'neighbours and the powers of two up to it, returns the smallest p with 10^p >= d (0 for d <= 1); with fewer '
+             'decimals two neighbouring raw values print the same text and the text encodes to another raw value than it '
+             'was decoded from', minimum=1)
+    import tinyeval
+    fb = ctx.fb
+    fn = fb.fn('ebusd::NumberDataType::calcPrecision')
+    ctx.touch(fn)
+    maxdiv = None
+    for g in fb.globals:
+        pass
+    mv = facts.macro_values(['lib/ebus/datatype.h'], ['MAX_DIVISOR'])
+    maxdiv = mv.get('MAX_DIVISOR')
+    if not maxdiv:
+        raise AnalysisBroken('C06.R15: MAX_DIVISOR not found')
+    ds = set(range(-3, 4097))
+    p10 = 1
+    while p10 <= maxdiv:
+        ds |= {p10 - 1, p10, p10 + 1}
+        p10 *= 10
+    p2 = 1
+    while p2 <= maxdiv:
+        ds |= {p2, p2 + 1}
+        p2 *= 2
+    bad = []
+    try:
+        for d in sorted(x for x in ds if x <= maxdiv):
+            got = tinyeval.run(fn, {}, [d])
+            want = 0
+            while d > 1 and 10 ** want < d:
+                want += 1
+            if got != want and len(bad) < 4:
+                bad.append('divisor %d: %s decimals, needed %d' % (d, got, want))
+    except (tinyeval.Unknown, tinyeval.OutOfBounds) as e:
+        raise AnalysisBroken('C06.R15: calcPrecision not evaluable (%s)' % e)
+    ctx.ob('C06.R15', fn, fn.body, not bad, 'decimals for a divisor', 'smallest p with 10^p >= divisor for all %d divisors tried: %s%s' % (
+        len(ds), not bad, '' if not bad else ' - ' + '; '.join(bad)))
+
+
+def r17(ctx):
+    ctx.rule('C06.R17', 'what the date+time decoder accepts the encoder can produce: the encoder (DateTimeDataType::writeSymbols) '
+             'takes years up to a constant maximum; where the decoder turns minutes since the epoch 01.01.2009 (MJD offset '
+             '54832) into a date, it has rejected every value beyond the last minute of that maximum year (bound computed '
+             'from the two constants with the calendar) - otherwise a pattern decodes to a text that encoding refuses, and '
+             'patterns far outside are shown as dates', minimum=1)
+    import datetime
+    fb = ctx.fb
+    rd = fb.fn('ebusd::DateTimeDataType::readSymbols')
+    wr = fb.fn('ebusd::DateTimeDataType::writeSymbols')
+    ctx.touch(rd)
+    ctx.touch(wr)
+    years = [wr.val(wr.nodes[c]['args'][3]) for c in wr.calls('parseInt') if len(wr.nodes[c].get('args', [])) >= 4 and
+             (wr.val(wr.nodes[c]['args'][3]) or 0) >= 1900]
+    if not years:
+        raise AnalysisBroken('C06.R17: the maximum year of the encoder was not found')
+    maxyear = max(years)
+    n = 0
+    for nid, d, rhs, op, lhs in rd.assignments():
+        if rhs is None or op != 'init':
+            continue
+        r = rd.nodes[rd.strip(rhs, casts=True)]
+        if r.get('k') != 'BinaryOperator' or r.get('op') != '+':
+            continue
+        offs = [rd.val(r[s_]) for s_ in ('lhs', 'rhs')]
+        if 54832 not in offs:
+            continue
+        other = r['lhs'] if offs[1] == 54832 else r['rhs']
+        mins = None
+        for y in rd.walk(other):
+            yv = rd.nodes[y]
+            if yv['k'] == 'DeclRefExpr' and yv.get('rk') == 'local' and (yv.get('w') or 0) >= 32:
+                mins = yv.get('name')
+        if mins is None:
+            continue
+        epoch = datetime.date(1858, 11, 17) + datetime.timedelta(days=54832)
+        bound = (datetime.date(maxyear + 1, 1, 1) - epoch).days * 24 * 60 - 1
+        n += 1
+        ok = rd.needs_one_of(nid, [('(%s <= #%d)' % (mins, bound), True), ('(%s < #%d)' % (mins, bound + 1), True)])
+        ctx.ob('C06.R17', rd, nid, ok, 'minutes since %s turned into a date' % epoch.strftime('%d.%m.%Y'),
+               'reached only with %s <= %d (31.12.%d 23:59, the last value the encoder produces): %s' % (mins, bound, maxyear, ok))
+    if n < 1:
+        raise AnalysisBroken('C06.R17: the conversion of minutes since 2009 was not found in the decoder')
+
+
 def run(ctx):
+    r17(ctx)
+    r15(ctx)
+    import rules.C07 as _c07
+    ctx.borrow(_c07.r1, {'C07.R1': 'C06.R16'},
+               'a text that decoding produced encodes back only if the parsed number reaches the raw value unharmed: a conversion to a narrower or signed type without a fitting bound turns the upper half of an unsigned 32 bit type into one pattern')
     r14(ctx)
     r13(ctx)
     r10(ctx)
